@@ -161,8 +161,8 @@ func (parties SocketRemoteParties) Send(msgType uint8, topic []byte, msg []byte,
 		}
 
 		onTimeout := func() {
-			p.reportErr(fmt.Sprintf("timeout sending to %d", dst))
-			panic("bla")
+			// The party is unreachable or too slow, drop the message instead of blocking the caller indefinitely
+			p.reportErr("timeout sending to %d, dropping message", dst)
 		}
 
 		p.msgs.enqueue(&msgToSend, onTimeout, time.Second*10)
